@@ -12,7 +12,8 @@ from vlib.core import Case, Facet, Refused, Violation, guarded
 THOROUGH_SCALE = 8
 LEVEL = "exploration"
 RULE = ("spec = sampler kind (DistributedSampler shuffle/drop_last/num_repeats 1-4, ClassBalancedSampler, WeightedSampler, "
-        "RandomSampler(num_repeats)) x dataset size 1-40 (incl. < world size) x world size 1-8 x seed x two epochs; oracle "
+        "RandomSampler(num_repeats)) x dataset size 1-40 (half of them <= 6, incl. < world size) x world size 1-16 x seed x two epochs "
+        "x launcher environment (RANK/WORLD_SIZE unset or set, no process group); oracle "
         "(structural): all per-rank streams have len(sampler) entries, their interleaving G is the W=1 draw of the same (seed, "
         "epoch) cut at the end or wrapped around cyclically - only trailing entries differ; equal (seed, epoch) reproduces G, "
         "set_epoch changes it whenever the draw space is large; with num_repeats=r the draw consists of runs of r equal indices "
@@ -105,9 +106,9 @@ def check_distributed(spec):
     G3, _ = _streams(make, W, spec["epoch"], via=spec["epoch"] + 1 + spec["seed"] % 3)
     if G3 != G:
         raise Violation("set_epoch-back-does-not-reproduce", f"set_epoch({spec['epoch']}) after another epoch gives a different draw")
-    if shuffle and N >= 8:
+    if shuffle and len(set(G)) >= 8:  # judged on what the ranks emit together (with N < W and drop_last that is nothing at all)
         others = [_streams(make, W, spec["epoch"] + k)[0] for k in (1, 2)]
-        if all(o == G for o in others) or (len(set(D)) >= 12 and others[0] == G):
+        if all(o == G for o in others) or (len(set(G)) >= 12 and others[0] == G):
             raise Violation("set_epoch-does-not-change-the-draw", f"epochs {spec['epoch']}..+2 give {G}")
     if r > 1:
         _runs(D, r, "distributed")
@@ -116,6 +117,28 @@ def check_distributed(spec):
             raise Violation("w1-draw-not-a-permutation", str(D))
     nt = W >= 3 or N < W or r > 1 or N % W != 0
     return Case(nt, ["W=%d" % W, "repeats" if r > 1 else "plain", "drop_last" if drop_last else "pad", "N<W" if N < W else "N>=W"], W + 3)
+
+
+def with_env(fn):
+    """the streams are a function of the arguments (seed, epoch, rank, world size): launcher variables such as RANK / WORLD_SIZE
+    (set by torchrun before any process group exists) must not leak into samplers that were given their rank explicitly"""
+    import os
+
+    def run(spec):
+        env = spec.get("env")
+        if not env:
+            return fn(spec)
+        keep = {k: os.environ.get(k) for k in ("RANK", "WORLD_SIZE", "LOCAL_RANK")}
+        os.environ.update({"RANK": str(env[0]), "WORLD_SIZE": str(env[1]), "LOCAL_RANK": str(env[0])})
+        try:
+            return fn(spec)
+        finally:
+            for k, v in keep.items():
+                if v is None:
+                    os.environ.pop(k, None)
+                else:
+                    os.environ[k] = v
+    return run
 
 
 def _class_layout(n_per_class, key):
@@ -171,10 +194,10 @@ def check_prefix_kind(spec):
     G3, _ = _streams(make, W, spec["epoch"], via=spec["epoch"] + 1 + spec["seed"] % 3)
     if G3 != G:
         raise Violation(f"set_epoch-back-does-not-reproduce:{kind}", f"set_epoch({spec['epoch']}) after another epoch gives a different draw")
-    if (kind == "weighted" or spec["shuffle"]) and len(D) >= 8 and len(set(D)) >= 8:
+    if (kind == "weighted" or spec["shuffle"]) and len(set(G)) >= 8:
         others = [_streams(make, W, spec["epoch"] + k)[0] for k in (1, 2)]
         # P[two honest shuffles of >= 12 distinct elements coincide] <= 1/12! ~ 2e-9: the pairwise test is safe there
-        if all(o == G for o in others) or (len(set(D)) >= 12 and others[0] == G):
+        if all(o == G for o in others) or (len(set(G)) >= 12 and others[0] == G):
             raise Violation(f"set_epoch-does-not-change-the-draw:{kind}", f"epoch {spec['epoch']} and {spec['epoch'] + 1}")
     return Case(W >= 3 or len(D) % W != 0 or len(D) < W, [kind, "W=%d" % W], W + 3)
 
@@ -198,24 +221,28 @@ def check_random_sampler(spec):
     return Case(r > 1, ["repeats=%d" % r], 2)
 
 
-DIST = st.fixed_dictionaries({"N": st.integers(1, 40), "W": st.sampled_from([1, 2, 3, 3, 4, 5, 6, 7, 8]), "seed": st.integers(0, 2 ** 20), "epoch": st.sampled_from([0, 0, 1, 2, 7, 50]),
+ENV = st.sampled_from([None, None, [1, 2], [3, 4], [5, 8]])
+WORLD = st.sampled_from([1, 2, 3, 3, 4, 5, 6, 7, 8, 11, 16])
+# half of the datasets are tiny: fewer samples than ranks, padding longer than the draw itself
+SIZE = st.one_of(st.integers(1, 6), st.integers(1, 40))
+DIST = st.fixed_dictionaries({"N": SIZE, "W": WORLD, "env": ENV, "seed": st.integers(0, 2 ** 20), "epoch": st.sampled_from([0, 0, 1, 2, 7, 50]),
                               "repeats": st.sampled_from([1, 1, 2, 3, 4]), "shuffle": st.sampled_from([True, True, False]),
                               "drop_last": st.booleans()})
 BAL = st.fixed_dictionaries({"kind": st.just("balanced"), "counts": st.lists(st.integers(1, 7), min_size=2, max_size=6),
-                             "key": st.integers(0, 999), "bulk": st.sampled_from(["list", "numpy", "tensor"]),
-                             "spc": st.one_of(st.none(), st.integers(1, 20)), "shuffle": st.booleans(), "W": st.sampled_from([1, 2, 3, 3, 4, 5, 6, 7, 8]),
+                             "key": st.integers(0, 999), "bulk": st.sampled_from(["list", "numpy", "tensor", "numpy:uint8", "numpy:int16", "tensor:int8", "tensor:int32"]),
+                             "spc": st.one_of(st.none(), st.integers(1, 20)), "shuffle": st.booleans(), "W": WORLD, "env": ENV,
                              "seed": st.integers(0, 2 ** 20), "epoch": st.sampled_from([0, 0, 1, 2, 7, 50])})
-WEI = st.fixed_dictionaries({"kind": st.just("weighted"), "n": st.integers(1, 40), "key": st.integers(0, 999),
-                             "size": st.one_of(st.none(), st.integers(1, 40)), "W": st.sampled_from([1, 2, 3, 3, 4, 5, 6, 7, 8]), "seed": st.integers(0, 2 ** 20),
+WEI = st.fixed_dictionaries({"kind": st.just("weighted"), "n": SIZE, "key": st.integers(0, 999), "env": ENV,
+                             "size": st.one_of(st.none(), st.integers(1, 40)), "W": WORLD, "seed": st.integers(0, 2 ** 20),
                              "epoch": st.sampled_from([0, 0, 1, 2, 7, 50])})
 RAND = st.fixed_dictionaries({"N": st.integers(1, 40), "repeats": st.integers(1, 4), "seed": st.integers(0, 2 ** 20)})
 
 FACETS = [
-    Facet("distributed", guarded("distributed", check_distributed), strategy=lambda tier: DIST, budget={"quick": 2500, "thorough": 40000},
+    Facet("distributed", guarded("distributed", with_env(check_distributed)), strategy=lambda tier: DIST, budget={"quick": 2500, "thorough": 40000},
           shards={"quick": 4, "thorough": 12}, min_nontrivial={"quick": 500, "thorough": 5000}),
-    Facet("class-balanced", guarded("class-balanced", check_prefix_kind), strategy=lambda tier: BAL, budget={"quick": 1000, "thorough": 12000},
+    Facet("class-balanced", guarded("class-balanced", with_env(check_prefix_kind)), strategy=lambda tier: BAL, budget={"quick": 1000, "thorough": 12000},
           shards={"quick": 2, "thorough": 6}, min_nontrivial={"quick": 200, "thorough": 2000}),
-    Facet("weighted", guarded("weighted", check_prefix_kind), strategy=lambda tier: WEI, budget={"quick": 1000, "thorough": 12000},
+    Facet("weighted", guarded("weighted", with_env(check_prefix_kind)), strategy=lambda tier: WEI, budget={"quick": 1000, "thorough": 12000},
           shards={"quick": 2, "thorough": 6}, min_nontrivial={"quick": 200, "thorough": 2000}),
     Facet("random-sampler-repeats", check_random_sampler, strategy=lambda tier: RAND, budget={"quick": 400, "thorough": 4000},
           shards={"quick": 1, "thorough": 2}, min_nontrivial={"quick": 100, "thorough": 1000}),
